@@ -248,34 +248,56 @@ def run(rep, tier, root=None):
     I = Interp(ix)
     got = I.paths(f, [j])
     wn, wm = Interp(ix).returns(ix.func(om.name, "noll_index"), [j])[0][1]
-    by = {}
     jmod = Rat.atom(Fn("mod", (j, Rat.const(2))))
+
+    def holds(val, case):
+        """truth of one atomic branch condition in the case m == 0 / (m != 0, j even) / (m != 0, j odd); None = either,
+        'unknown' = not understood"""
+        a = val.single_atom() if isinstance(val, Rat) else None
+        if not (isinstance(a, Fn) and a.name == "cmp"):
+            return "unknown"
+        op_, l, r_ = a.args[0], a.args[1], a.args[2]
+        if isinstance(l, Rat) and l.is_const() and not (isinstance(r_, Rat) and r_.is_const()):
+            l, r_ = r_, l
+            op_ = {"<": ">", ">": "<", "<=": ">=", ">=": "<="}.get(op_, op_)
+        if not (isinstance(r_, Rat) and r_.is_const()):
+            return "unknown"
+        c_ = complex(r_.const_value()).real
+        if same_value(l, jmod) and op_ in ("==", "!=") and c_ in (0, 1):
+            if case == "zero":
+                return None
+            par = 0 if case == "even" else 1
+            return (par == c_) == (op_ == "==")
+        if (same_value(l, wm) or same_value(l, -wm)) and c_ == 0:
+            neg = same_value(l, -wm) and not same_value(l, wm)
+            zero = case == "zero"               # |m| >= 0: m > 0 is m != 0
+            table = {"==": zero, "!=": not zero, ">": (not zero) and not neg, "<": (not zero) and neg, ">=": zero or not neg, "<=": zero or neg}
+            return table.get(op_, "unknown")
+        return "unknown"
+    covered, bad = set(), False
     for c, cnf, v in got:
-        key = None
-        for val, truth in cnf:
-            a = val.single_atom() if isinstance(val, Rat) else None
-            if isinstance(a, Fn) and a.name == "cmp" and a.args[0] in ("==", "!="):
-                l, r_ = a.args[1], a.args[2]
-                if same_value(r_, jmod):
-                    l, r_ = r_, l
-                if same_value(l, jmod) and isinstance(r_, Rat) and r_.is_const():
-                    k = int(complex(r_.const_value()).real)
-                    eq = (a.args[0] == "==") == truth           # path asserts j % 2 == k  (or != k)
-                    parity = k if eq else 1 - k
-                    key = "even" if parity == 0 else "odd"
-        if key is None:
-            key = "zero"
-        if key in by:
-            key = key + "'"
-        by[key] = v
-    if set(by) != {"zero", "even", "odd"} or not all(isinstance(v, (tuple, list)) and len(v) == 2 for v in by.values()):
+        if not (isinstance(v, (tuple, list)) and len(v) == 2):
+            bad = True
+            continue
+        for case in ("zero", "even", "odd"):
+            hs = [(holds(val, case), truth) for val, truth in cnf]
+            if any(h == "unknown" for h, t_ in hs):
+                bad = True
+                continue
+            if any(h is not None and h != t_ for h, t_ in hs):
+                continue                # the path is not taken in this case
+            covered.add(case)
+            tagc = "%s[%s | %s]" % (f.fq, {"zero": "m == 0", "even": "j even", "odd": "j odd"}[case], "; ".join(c) or "-")
+            check_equal(rep, "Z3.noll-index", tagc + ": n == int((sqrt(8j-7)-1)/2)", v[0], wn, f.where(), what="radial order")
+            if case == "zero":
+                rep.check(same_value(v[1], wm) or same_value(v[1], -wm), "Z3.noll-index", tagc + ": |m| formula",
+                          "azimuthal order is %s" % nf(v[1], 160), f.where())
+            elif case == "even":
+                check_equal(rep, "Z3.sign-convention", tagc + ": m = +|m| (cosine)", v[1], wm, f.where(), what="azimuthal order")
+            else:
+                check_equal(rep, "Z3.sign-convention", tagc + ": m = -|m| (sine)", v[1], -wm, f.where(), what="azimuthal order")
+    if bad or covered != {"zero", "even", "odd"}:
         rep.unknown("Z3.noll-index", f.fq, "expected paths m == 0 / j even / j odd returning [n, m]", f.where())
-    else:
-        for k, v in sorted(by.items()):
-            check_equal(rep, "Z3.noll-index", "%s[%s]: n == int((sqrt(8j-7)-1)/2)" % (f.fq, k), v[0], wn, f.where(), what="radial order")
-        check_equal(rep, "Z3.noll-index", f.fq + "[m == 0]: |m| formula", by["zero"][1], wm, f.where(), what="azimuthal order")
-        check_equal(rep, "Z3.sign-convention", f.fq + "[j even]: m = +|m| (cosine)", by["even"][1], wm, f.where(), what="azimuthal order")
-        check_equal(rep, "Z3.sign-convention", f.fq + "[j odd]: m = -|m| (sine)", by["odd"][1], -wm, f.where(), what="azimuthal order")
 
     # ---------------------------------------------------------------- Z4
     f = F("zernikeRadialFunc")
@@ -317,25 +339,42 @@ def run(rep, tier, root=None):
             lv, rng = l[2], l[3]
             val, idx = s[3], s[2]
             ext = a[2][0][0] if a[2] and isinstance(a[2][0], (tuple, list)) else None
-            is_list = same_value(val, call(Rat.atom(Fn("getitem", (J, lv)))))
-            is_count = same_value(val, call(lv))
-            kind = "list" if is_list else ("count" if is_count else None)
+            # the loop's own counter t (range variable, or the position in an enumerate / direct iteration) and the slot the
+            # mode is stored in, idx = t + b: as a function of the slot k the stored mode must be zernike_noll(J[k]) (list)
+            # or zernike_noll(k + 1) (count)
+            ts = sorted(set(x for x in (idx.atoms() if isinstance(idx, Rat) else ()) if isinstance(x, Sym) and "loopvar" in x.flags),
+                        key=lambda x: x.name)
+            t = Rat.atom(ts[0]) if len(ts) == 1 else None
+            b = (idx - t) if t is not None else None
+            kind = None
+            if t is not None and b.is_const() and isinstance(val, Rat):
+                val_k = val.subst(lambda x: (t - b) if x == ts[0] else None)
+                if same_value(val_k, call(Rat.atom(Fn("getitem", (J, t))))):
+                    kind = "list"
+                elif same_value(val_k, call(t + 1)):
+                    kind = "count"
             if kind is None:
                 rep.violation("Z5.dispatch", "%s: stored mode %s" % (f.fq, nf(val, 100)),
-                              "a build branch stores %s: not zernike_noll(<index>, N, rot) with the branch's own index and the same "
-                              "trailing arguments as the other branch" % nf(val, 160), "%s:%d" % (f.module.relpath, s[4]))
+                              "a build branch stores %s at index %s: not zernike_noll(J[k], N, rot) or zernike_noll(k + 1, N, rot) in slot k, with the "
+                              "same trailing arguments as the other branch" % (nf(val, 160), nf(idx, 60)), "%s:%d" % (f.module.relpath, s[4]))
                 continue
             kinds[kind] = True
-            want_idx = lv if kind == "list" else lv - 1
-            rep.check(same_value(idx, want_idx), "Z5.storage-index", "%s[%s]: mode of %s stored at %s" % (
-                f.fq, kind, "J[i]" if kind == "list" else "j", "i" if kind == "list" else "j-1"),
-                "mode for loop value %s is stored at index %s" % (nf(lv), nf(idx)), "%s:%d" % (f.module.relpath, s[4]))
+            rep.ok("Z5.storage-index", "%s[%s]: mode of %s stored at %s" % (
+                f.fq, kind, "J[i]" if kind == "list" else "j", "i" if kind == "list" else "j-1"), "slot k holds the mode of %s" % (
+                "J[k]" if kind == "list" else "k + 1"))
+            loop_node = next((n_ for n_ in ast.walk(f.node) if isinstance(n_, ast.For) and n_.lineno == l[1]), None)
+            it_node = loop_node.iter if loop_node is not None else None
+            if isinstance(it_node, ast.Call) and norm_text(it_node.func) == "enumerate" and it_node.args:
+                it_node = it_node.args[0]
             if isinstance(ext, Rat) and isinstance(rng, RangeVal):
-                okc, why = coverage(idx, lv.single_atom(), rng, ext)
+                okc, why = coverage(idx, ts[0], rng, ext)
                 if okc is None:
                     rep.unknown("Z5.allocation-coverage", "%s[%s]" % (f.fq, kind), why, f.where())
                 else:
                     rep.check(okc, "Z5.allocation-coverage", "%s[%s]: every mode slot of numpy.empty() written" % (f.fq, kind), why, f.where(), note=why)
+            elif isinstance(it_node, ast.Name) and it_node.id == s[1] and b.is_zero():
+                rep.ok("Z5.allocation-coverage", "%s[%s]: every mode slot of numpy.empty() written" % (f.fq, kind),
+                       "the loop iterates over the items of the allocated array itself and writes item k in iteration k")
             else:
                 rep.unknown("Z5.allocation-coverage", "%s[%s]" % (f.fq, kind), "allocation extent / loop range not recognised", f.where())
         rep.check(set(kinds) == {"list", "count"}, "Z5.dispatch", f.fq + ": list and count branch both call zernike_noll(index, N, rot)",
@@ -387,7 +426,19 @@ def run(rep, tier, root=None):
     if len(got) != 1:
         rep.unknown("Z6.linear-combination", f.fq, "expected one path", f.where())
     else:
-        check_equal(rep, "Z6.linear-combination", f.fq + " == sum_z Zs[z]*zCoeffs[z], Zs = zernikeArray(len, size, norm, rot)", got[0][1], want,
+        from ..common import canon_iteration_sums
+
+        def length_of(x):
+            # zernikeArray(n, ...) with an integer count has n modes (Z5 count branch); a coefficient vector has len() items
+            a_ = x.single_atom() if isinstance(x, Rat) else None
+            if isinstance(a_, Fn) and a_.name == "call:" + fq("zernikeArray") and a_.args and isinstance(a_.args[0], Rat) and \
+                    isinstance(a_.args[0].single_atom(), Fn) and a_.args[0].single_atom().name == "len":
+                return a_.args[0]
+            if isinstance(a_, Sym):
+                return Rat.atom(Fn("len", (x,)))
+            return None
+        check_equal(rep, "Z6.linear-combination", f.fq + " == sum_z Zs[z]*zCoeffs[z], Zs = zernikeArray(len, size, norm, rot)",
+                    canon_iteration_sums(got[0][1], length_of), want,
                     f.where(), what="phase from coefficients")
     # ---------------------------------------------------------------- Z8 gamma matrices
     from . import c12_gammas
